@@ -5,6 +5,7 @@
 mod collect;
 mod cprp;
 mod dec;
+mod feedsim;
 mod gen;
 mod mon;
 mod obs;
@@ -45,6 +46,9 @@ fn main() {
     let verif = PathBuf::from(get("--verif").unwrap_or_else(|| "/verif".into()));
     let threads: usize = get("--threads").and_then(|s| s.parse().ok()).unwrap_or_else(|| std::thread::available_parallelism().map_or(8, |n| n.get()));
 
+    if cmd == "feedsim" {
+        std::process::exit(feedsim::run(&args));
+    }
     if cmd == "selfcheck" {
         match vref::selfcheck::run() {
             Ok(notes) => {
